@@ -60,8 +60,35 @@ FAULTS = {
 }
 
 
-def plant_api(asm, acc, fault_class, fault, pos, depth, compress, root=None):
+_RB = {}
+
+
+def rand_base(k):
+    """an otherwise valid program other than BASE: random instructions, pseudo-instructions, data, aligns and labels, with the names the
+    planted lines refer to (START, KR, K1, MID, END).  No transfer or label-dependent immediate sits near the edge of its range, so a
+    planted line that changes the layout cannot make a *second* line faulty"""
+    if k not in _RB:
+        from ..gen import randprog, program as P
+        rng = random.Random('c15-base-%d' % k)
+        items = randprog.gen(rng, dict(n=(4, 28), labels=(1, 4), w_xfer=0, w_labimm=0, w_gap=0, big_gap=0))
+        body = [ln for ln in P.render(items)]
+        cut = rng.randrange(len(body) + 1)
+        _RB[k] = ['START:', 'KR = 40', 'K1 = 12'] + body[:cut] + ['MID:', 'j START', 'dw MID'] + body[cut:] + ['END:', 'ret']
+    return _RB[k]
+
+
+def plant_api(asm, acc, fault_class, fault, pos, depth, compress, root=None, base=None):
     """-> nothing; records violations"""
+    BASE = globals()['BASE'] if base is None else rand_base(base)          # noqa: shadows the module-level program on purpose
+    if base is not None:
+        pos = pos % (len(BASE) + 1) if fault not in ODD else len(BASE)     # (an odd-sized plant in front of an `align` would move code by an odd amount)
+        ok = _RB.get(('ok', base, compress))
+        if ok is None:
+            ok = _RB[('ok', base, compress)] = monitors.observe(asm, '\n'.join(BASE) + '\n', compress, tap=False).ok
+        if not ok:
+            acc['ctr']['random_base_refused'] += 1
+            return
+        acc['ctr']['plants_in_random_programs'] += 1
     acc['n'] += 1
     lines = BASE[:pos] + [fault] + BASE[pos:]
     shift = 0
@@ -70,8 +97,8 @@ def plant_api(asm, acc, fault_class, fault, pos, depth, compress, root=None):
         pos = max(pos, 5)
         lines = BASE[:pos] + ['string ' + 'G' * 5000, fault] + BASE[pos:]
         shift = 1
-    case = {'kind': 'api', 'class': fault_class, 'fault': fault, 'pos': pos, 'depth': depth, 'compress': compress}
-    acc['ntkeys'].add(core.ckey(fault, pos, depth, compress))
+    case = {'kind': 'api', 'class': fault_class, 'fault': fault, 'pos': pos, 'depth': depth, 'compress': compress, 'base': base}
+    acc['ntkeys'].add(core.ckey(fault, pos, depth, compress, base))
     core.see(acc, 'cells', '%s/%s/%s' % (fault_class, carrier(fault), 'c' if compress else 'u'))
     if depth == 0:
         eol = ['\n', '\r\n', '\r', '\n'][(pos + len(fault)) % 4]         # program text handed in as a string: LF, CR LF or bare CR line ends
@@ -218,9 +245,9 @@ def run_shard(sh, deadline):
             for kind in ('include', 'include_bytes'):
                 for compress in (False, True):
                     vanished_include(asm, acc, root, kind, compress)
-        for (cls, fault, pos, depth, compress, via) in sh['plants']:
+        for (cls, fault, pos, depth, compress, via, *rest) in sh['plants']:
             if via == 'api':
-                plant_api(asm, acc, cls, fault, pos, depth, compress, root)
+                plant_api(asm, acc, cls, fault, pos, depth, compress, root, base=rest[0] if rest else None)
             else:
                 plant_cli(asm, acc, cls, fault, pos, depth, compress)
             if time.time() > deadline:
@@ -257,6 +284,15 @@ def plan(tier, seed):
                         if fault in ODD:
                             pos = [0, len(BASE)][k % 2]
                         plants.append((cls, fault, pos, k, compress, 'api'))
+    # the same fault lines inside other "otherwise valid programs": random ones (quick: one per fault line, thorough: 300)
+    nb = 0
+    for cls, faults in FAULTS.items():
+        if cls == 'twin_text':
+            continue
+        for fault in faults:
+            for r in range(1 if tier == 'quick' else 300):
+                nb += 1
+                plants.append((cls, fault, rng.randrange(0, 1000), rng.randrange(4) if r % 2 else 0, bool((nb + r) & 1), 'api', (nb * 7 + seed) % (40 if tier == 'quick' else 20000)))
     ncli = 60 if tier == 'quick' else 600
     allf = [(c, f) for c, fs in FAULTS.items() for f in fs]
     for k in range(ncli):
@@ -265,7 +301,7 @@ def plan(tier, seed):
     nsh = 32 if tier == 'quick' else 256
     shards = [{'plants': plants[i::nsh], 'base_check': i == 0} for i in range(nsh)]
     return {'shards': shards, 'budget_s': 300 if tier == 'quick' else 3000, 'extra_cov': {'plants_planned': len(plants), 'fault_lines': len(allf)},
-            'exhaustive': tier == 'thorough'}
+            'exhaustive': False}
 
 
 def gates(acc, tier):
@@ -299,7 +335,7 @@ def replay(case):
         if case['kind'] == 'vanished':
             vanished_include(asm, acc, root, case['what'], case['compress'])
         elif case['kind'] == 'api':
-            plant_api(asm, acc, case['class'], case['fault'], case['pos'], case['depth'], case['compress'], root)
+            plant_api(asm, acc, case['class'], case['fault'], case['pos'], case['depth'], case['compress'], root, base=case.get('base'))
         else:
             plant_cli(asm, acc, case['class'], case['fault'], case['pos'], case['depth'], case['compress'])
     finally:
